@@ -838,24 +838,25 @@ EXPECTED_SHAPE = {'_flush_exception': 'if( flush ){ try{ do_close=do_close flush
                      'True W:will_close False True return } except(Exception){ True W:will_close False True '
                      'return } } False False return',
  '_flush_outbufs_below_high_watermark': 'if( R:total_outbufs_len Gt .outbuf_high_watermark ){ '
-                                        'with(outbuf_lock){ do_close=False _flush_exception() if( ){ '
-                                        'pull_trigger() wait() return } while( and( R:connected , '
-                                        'R:total_outbufs_len Gt .outbuf_high_watermark , ) ){ pull_trigger() '
-                                        'wait() } } }',
+                                        'with(outbuf_lock){ if( not R:connected ){ return } do_close=False '
+                                        '_flush_exception() if( ){ pull_trigger() wait() return } while( '
+                                        'and( R:connected , R:total_outbufs_len Gt .outbuf_high_watermark , '
+                                        ') ){ pull_trigger() wait() } } }',
  '_flush_some': '0 False while( True ){ R:outbufs 0 while( Gt 0 ){ get() do_close=do_close send() if( ){ '
                 'True skip() R:total_outbufs_len W:total_outbufs_len } else{ True break } } else{ if( '
                 'R:outbufs len() Gt 1 ){ 0 R:outbufs pop() try{ close() } except(Exception){ } } else{ True '
                 '} } if( ){ break } } if( ){ W:last_activity True return } False return',
  '_flush_some_if_lockable': 'if( False acquire() ){ try{ do_close=do_close _flush_some() if( '
-                            'R:total_outbufs_len Lt .outbuf_high_watermark ){ notify() } } finally{ '
+                            'R:total_outbufs_len LtE .outbuf_high_watermark ){ notify() } } finally{ '
                             'release() } }',
  'handle_close': 'with(outbuf_lock){ for( R:outbufs ){ try{ close() } except(Exception){ } } 0 '
                  'W:total_outbufs_len False W:connected notify() } close()',
  'handle_read': 'try{ recv() } except(OSError){ if( ){ } handle_close() return } if( ){ W:last_activity '
                 'received() } else{ False W:connected }',
- 'handle_write': 'if( not R:requests ){ } else{ if( R:total_outbufs_len GtE .send_bytes ){ } else{ None } } '
-                 'flush _flush_exception() if( and( R:close_when_flushed , not R:total_outbufs_len , ) ){ '
-                 'False W:close_when_flushed True W:will_close } if( R:will_close ){ handle_close() }',
+ 'handle_write': 'if( not R:requests ){ } else{ if( or( R:total_outbufs_len GtE .send_bytes , '
+                 'R:total_outbufs_len Gt .outbuf_high_watermark , ) ){ } else{ None } } flush '
+                 '_flush_exception() if( and( R:close_when_flushed , not R:total_outbufs_len , ) ){ False '
+                 'W:close_when_flushed True W:will_close } if( R:will_close ){ handle_close() }',
  'readable': 'not or( R:will_close , R:close_when_flushed , R:requests len() Gt .channel_request_lookahead , '
              'R:total_outbufs_len , ) return',
  'received': 'if( not ){ False return } with(requests_lock){ if( or( R:will_close , R:close_when_flushed , ) '
